@@ -21,7 +21,7 @@ def axis_entries(n, small):
     return out
 
 
-def view_catalogue(shape, rng, small=True, with_arrays=True, max_views=None):
+def view_catalogue(shape, rng, small=True, with_arrays=True, max_views=None, ellipsis_in_tuples=True):
     d = len(shape)
     views = [None, Ellipsis]
     per_axis = [axis_entries(n, True if d > 1 or small else False) for n in shape]
@@ -33,7 +33,7 @@ def view_catalogue(shape, rng, small=True, with_arrays=True, max_views=None):
         views.extend(combos)
     if d == 1:
         views.extend(per_axis[0])           # bare (non-tuple) index
-    if d >= 2:
+    if d >= 2 and ellipsis_in_tuples:
         views.append((Ellipsis, slice(None, None, 2)))
         views.append((0, Ellipsis))
     if with_arrays and all(n > 0 for n in shape):
